@@ -292,6 +292,14 @@ func streamReq(c *Ctx) {
 	specials := [][]byte{[]byte("{}"), []byte("a: b\r\n"), []byte("x")}
 	for _, proto := range protos {
 		for _, kind := range kinds {
+			if !(proto == "connect" && kind == "unary") {
+				for _, fl := range []byte{2, 4, 8, 64, 128, 3, 129} {
+					for _, sent := range []string{"", "rle"} {
+						hreqOp(c, fmt.Sprintf("hreq proto=%s kind=%s max=0 sent=%s tmo=- flat=%s tail=eof seg=-", proto, kind, hx([]byte(sent)), hx(frame(fl, nil))))
+						hreqOp(c, fmt.Sprintf("hreq proto=%s kind=%s max=0 sent=%s tmo=- flat=%s tail=eof seg=-", proto, kind, hx([]byte(sent)), hx(append(frame(0, []byte{1}), append(frame(fl, nil), frame(0, []byte{2})...)...))))
+					}
+				}
+			}
 			for i := 0; i < n; i++ {
 				sent := []string{"", "", "", "rle", "rle", "identity", "br", "zz"}[r.Intn(8)]
 				comp := sent == "rle"
@@ -312,9 +320,12 @@ func streamReq(c *Ctx) {
 						flat = append(flat, frame(1, rleCompress([]byte{4, 4, 4}))...)
 					}
 					if r.Chance(30) { // a terminator / undefined flags inside a request
-						fl := []byte{2, 3, 128, 129, 4, 64, 130}[r.Intn(7)]
+						fl := []byte{2, 3, 128, 129, 4, 64, 130, 8}[r.Intn(8)]
 						p := specials[r.Intn(len(specials))]
-						if fl&1 != 0 {
+						if r.Chance(35) {
+							p = nil // a flagged envelope of length zero is still not a message
+						}
+						if fl&1 != 0 && len(p) > 0 {
 							p = rleCompress(p)
 						}
 						flat = append(flat, frame(fl, p)...)
